@@ -63,7 +63,7 @@ P_SCENE = gen.profile(
 )
 
 CONTACT_BLOCK = """
-    <geom name="c32_plane" type="plane" size="0 0 1" pos="0 0 -3" contype="1" conaffinity="1"/>
+    <geom name="c32_plane" type="plane" size="0 0 1" pos="0 0 -3" contype="1" conaffinity="1" solref="0.003 1"/>
     <body name="c32_a" pos="3 0 {za:.5f}">
       <freejoint/>
       <geom name="c32_ga" type="sphere" size="0.15" contype="1" conaffinity="1" solref="{sr} 1" condim="{cd}"/>
@@ -74,7 +74,7 @@ CONTACT_BLOCK = """
     </body>
     <body name="c32_b" pos="4 1 {zb:.5f}">
       <freejoint/>
-      <geom name="c32_gb" type="capsule" size="0.1 0.15" quat="0.70710678 0 0.70710678 0" contype="1" conaffinity="1"/>
+      <geom name="c32_gb" type="capsule" size="0.1 0.15" quat="0.70710678 0 0.70710678 0" contype="1" conaffinity="1" solref="0.003 1"/>
     </body>
 """
 
@@ -124,7 +124,11 @@ def build_scene(scene_seed):
   block = CONTACT_BLOCK.format(za=-3 + 0.15 - 0.004, zb=-3 + 0.1 - 0.003, sr=sr, cd=(3, 4, 1)[int(rng.integers(3))])
   xml = xml.replace("  </worldbody>", block + "  </worldbody>")
   # one equality with a solref time constant below 2*timestep so that REFSAFE has something to do
-  xml = xml.replace('<connect name="eq0"', '<connect solref="0.003 1" name="eq0"', 1).replace('<joint name="eq0"', '<joint solref="0.003 1" name="eq0"', 1)
+  lines = xml.split("\n")
+  for i, ln in enumerate(lines):
+    if 'name="eq0"' in ln and "solref" not in ln:
+      lines[i] = ln.replace('name="eq0"', 'name="eq0" solref="0.003 1"', 1)
+  xml = "\n".join(lines)
   return xml, list(feat)
 
 
@@ -148,6 +152,14 @@ def sample_states(mjm, rng, nworld=2):
     st["qvel"] = qv.astype(np.float32)
     st["xfrc_applied"] = (st["xfrc_applied"] * 0.3).astype(np.float32)
     st["qacc_warmstart"] = (rng.normal(size=mjm.nv) * 2.0).astype(np.float32)
+    if w == 1:
+      # a *useful* warmstart (the converged acceleration of the unflagged model): MuJoCo discards a warmstart that is worse
+      # than qacc_smooth, so a random one would never make the WARMSTART flag live
+      d0 = mujoco.MjData(mjm)
+      mw.apply_state_mj(mjm, d0, st)
+      mujoco.mj_forward(mjm, d0)
+      if np.all(np.isfinite(d0.qacc)):
+        st["qacc_warmstart"] = np.asarray(d0.qacc, dtype=np.float32)
     states.append(st)
   return states
 
@@ -207,6 +219,15 @@ def run_case(case):
   states = sample_states(mjm, np.random.default_rng(case["scene"] + 7))  # same states for every flag set of a scene
   nworld = len(states)
   label = fname(S) if len(S) <= 2 else "multi"
+  if "ACTUATION" in names and mjm.na:
+    # mechanism label shared by all flag sets: with actuation disabled MuJoCo leaves act untouched, so an activation that
+    # starts outside its actrange is a distinct, recognisable situation
+    for i in range(mjm.nu):
+      if mjm.actuator_actlimited[i] and mjm.actuator_actadr[i] >= 0:
+        a = mjm.actuator_actadr[i] + mjm.actuator_actnum[i] - 1
+        lo, hi = mjm.actuator_actrange[i]
+        if any(st["act"][a] < lo or st["act"][a] > hi for st in states):
+          label = "ACTUATION,act_outside_actrange"
   prefix = f"flags[{label}]:"
 
   # ---- (b) forward + inverse with the same qacc
@@ -230,6 +251,11 @@ def run_case(case):
           continue
         if "INVDISCRETE" in names and _step.mujoco_extra_treatment(mjm, st):
           rec.count("worlds_skew_mujoco313_implicit_extra_treatment")
+          continue
+        if "INVDISCRETE" in names and integ == "implicitfast" and any(_step.implicit_hypothesis(mjm, st, h) is not None for h in ("unclamped_ctrl", "muscle_gain_vel")):
+          # the discrete->continuous conversion uses the same velocity-derivative matrix as the implicitfast step: states
+          # in which the C08 findings implicit:actuator_vel_derivative_* are active are reported by oracle (a), not twice
+          rec.count("inverse_worlds_skipped_known_vel_derivative_mechanism_active")
           continue
 
         def stage(mm, dd, qa=qa):
